@@ -1552,6 +1552,7 @@ func main() {
 		h.rsaInterop()
 		h.ecdsaInterop()
 		h.ed25519Interop()
+		h.asymFull()
 	}
 	tRSA := time.Since(t0) - tSym - tAsym
 	if !f.Search {
